@@ -303,7 +303,10 @@ class _T(object):
 
 
 class Scheduler(object):
-    POLL_LIMIT = 4000
+    # Number of 1 ms polls granted when every registered thread is blocked before the state is declared stuck. All threads
+    # that can unblock a registered thread are registered themselves, so "everybody blocked" is a logical property of the
+    # execution, not a matter of timing; the polls only cover the instant between a thread's last step and its exit.
+    POLL_LIMIT = 300
 
     def __init__(self, plan, initial):
         """plan: {"order": [...], "changes": [[name, k], ...]}; initial: names of the threads the harness will start."""
@@ -327,6 +330,7 @@ class Scheduler(object):
         self.last_progress = time.monotonic()
         self.waiting = {}  # thread name -> (what, object) of the blocking operation it is retrying
         self.deadlock = None
+        self.idle_polls = 0  # consecutive polls without any thread making a step
 
     # ---- helpers
     def _prio_of(self, name):
@@ -384,8 +388,11 @@ class Scheduler(object):
                 raise SchedAbort(self.aborted)
             # otherwise wait for something external (thread exit, unregistered thread) and retry
             self.polls += 1
-            if self.polls > self.POLL_LIMIT:
-                self._abort("all registered threads blocked (%s)" % ",".join(t.name for t in waiting))
+            self.idle_polls += 1
+            if self.idle_polls > self.POLL_LIMIT:
+                self.deadlock = "no registered thread can make progress: " + "; ".join(
+                    "%s blocked in %s" % (t.name, self.waiting.get(t.name, ("?", None))[0]) for t in waiting)
+                self._abort("stuck: " + self.deadlock)
                 raise SchedAbort(self.aborted)
             self.cv.wait(0.001)
             for t in waiting:
@@ -458,6 +465,8 @@ class Scheduler(object):
             t = self.threads[me]
             t.events += 1
             self.steps += 1
+            if kind == "line":
+                self.idle_polls = 0
             if self.trace and self.trace[-1][0] == me:
                 self.trace[-1][1] += 1
             else:
